@@ -511,6 +511,17 @@ int world_feed(world_t *w, int side, const unsigned char *p, int len)
             }
             return cap ? cap : -1;
         }
+        if (s->ssl->inlen < 0 || s->ssl->inlen > s->ssl->insize || rb < s->ssl->inbuf || cap > s->ssl->insize)
+        {
+            /* matrixSslGetReadbuf handed out a region outside inbuf: an application would now recv() out of bounds */
+            w->corrupt = 1;
+            world_tracef(w, "%d:READBUF-OUT-OF-BOUNDS inlen %d insize %d\n", side, s->ssl->inlen, s->ssl->insize);
+            if (!s->err_rc)
+            {
+                s->err_rc = -9998;
+            }
+            return -9998;
+        }
         n = len - off < cap ? len - off : cap;
         memcpy(rb, p + off, (size_t) n);
         off += n;
